@@ -36,6 +36,8 @@ type c16Case struct {
 	// NoAck: the kernel never answers (every receive says EAGAIN): a WaitForReply setter gives up with an
 	// error after having sent its ONE request
 	NoAck bool `json:"no_ack_ever,omitempty"`
+	// Seq0: the transport numbers the client's first request 0
+	Seq0 bool `json:"first_request_numbered_zero,omitempty"`
 }
 
 var c16Setters = []string{"SetPID", "SetRateLimit", "SetBacklogLimit", "SetEnabled", "SetImmutable", "SetFailure", "SetBacklogWaitTime"}
@@ -44,6 +46,10 @@ var c16U32 = []int64{0, 1, 2, 63, 64, 8192, 65535, 65536, 1<<31 - 1, 1 << 31, 1<
 
 func c16Setter(c *mon.Ctx, k *c16Case) {
 	sim := simkernel.New(uint32(k.Arg%1000) + 1)
+	if k.Seq0 {
+		sim = simkernel.New(0)
+		sim.AllowSeqZero = true
+	}
 	sim.OnSend = func(s *simkernel.Sim, idx int, m simkernel.SentMsg) []simkernel.Step {
 		if k.NoAck {
 			return nil
@@ -251,6 +257,16 @@ func c16GetStatus(c *mon.Ctx) {
 		for rep := 0; rep < c.Pick(4, 200); rep++ {
 			payload := r.Bytes(n)
 			sim := simkernel.New(uint32(n) + 1)
+			// a transport may number a request 0 (a custom NetlinkSendReceiver, or the 2^32-th request of a
+			// NetlinkClient): in a fifth of the cases the first or the second GetStatus goes out as number 0
+			switch rep % 5 {
+			case 3:
+				sim = simkernel.New(0)
+				sim.AllowSeqZero = true
+			case 4:
+				sim = simkernel.New(0xFFFFFFFF)
+				sim.AllowSeqZero = true
+			}
 			other := r.Bytes(uapi.StatusSize)
 			sim.OnSend = func(s *simkernel.Sim, idx int, m simkernel.SentMsg) []simkernel.Step {
 				if idx > 0 {
@@ -344,6 +360,7 @@ func c16Run(c *mon.Ctx) {
 					cases = append(cases, &c16Case{Kind: "setter", Setter: s, Arg: a, NoWait: nw, Prior: prior})
 				}
 				if a == args[0] {
+					cases = append(cases, &c16Case{Kind: "setter", Setter: s, Arg: a, NoWait: nw, Seq0: true})
 					for _, n := range []int{2, 15, 16, 17, 40, 100, 300} {
 						cases = append(cases, &c16Case{Kind: "setter", Setter: s, Arg: a, NoWait: nw, Prior: "ok", PriorN: n})
 					}
@@ -404,7 +421,7 @@ func c16Run(c *mon.Ctx) {
 func init() {
 	register(&mon.CheckSpec{
 		ID: "C16", Level: "exploration",
-		Rule: "cases = every Set* command x {all uint32/int32 boundary values, both booleans, all failure modes incl. the exported names, random values} x both wait modes (also as the 2nd..301st request in a row of uncollected NoWait requests), observed as the NetlinkMessage handed to a simulated kernel's Send and decoded word by word at the UAPI audit_status offsets (one request, type 1001, flags REQUEST|ACK, 44-byte payload, exactly one mask bit, the value in its field, every other word zero; NoWait does no receive); the 21 exported numbers against the kernel's; GetStatus's request (one AUDIT_GET, REQUEST|ACK, empty) and its decoding of replies of every length 0..96; FromWireFormat on every buffer length 0..96 x random / all-ones / all-zero contents with a garbage-prefilled receiver and the input ending at a PROT_NONE page. The same cases run a second time under the race detector (checkptr) and, in the thorough tier, under ASan. distinct_nontrivial = distinct (setter, value, mode) triples and distinct buffers.",
+		Rule: "cases = every Set* command x {all uint32/int32 boundary values, both booleans, all failure modes incl. the exported names, random values} x both wait modes (also as the 2nd..301st request in a row of uncollected NoWait requests, and as a request that the transport numbers 0), observed as the NetlinkMessage handed to a simulated kernel's Send and decoded word by word at the UAPI audit_status offsets (one request, type 1001, flags REQUEST|ACK, 44-byte payload, exactly one mask bit, the value in its field, every other word zero; NoWait does no receive); the 21 exported numbers against the kernel's; GetStatus's request (one AUDIT_GET, REQUEST|ACK, empty) and its decoding of replies of every length 0..96; FromWireFormat on every buffer length 0..96 x random / all-ones / all-zero contents with a garbage-prefilled receiver and the input ending at a PROT_NONE page. The same cases run a second time under the race detector (checkptr) and, in the thorough tier, under ASan. distinct_nontrivial = distinct (setter, value, mode) triples and distinct buffers.",
 		Assumptions: []string{
 			"expected offsets, mask bits and numbers come from internal/uapi (hand-written from linux/audit.h, self-tested against the system header)",
 			"a field the buffer reaches only partially may be zero or hold the reached low bytes (the statement does not define it)",
